@@ -324,6 +324,39 @@ theorem keeps_write_fresh {h h' : Heap} (hk : Keeps h h') (n : Nat) (hn : h.leng
   rw [List.getElem?_set_ne hne]
   exact hk.2 i hi
 
+theorem appendH_keeps {h0 h : Heap} (hk : Keeps h0 h) (s : Option (Nat × Nat)) (xs : List String)
+    (hs : ∀ i n, s = some (i, n) → h0.length ≤ i) : Keeps h0 (appendH h s xs).1 := by
+  unfold appendH
+  cases s with
+  | none =>
+    simp only
+    split
+    · exact hk
+    · exact hk.trans (keeps_alloc h _)
+  | some p =>
+    obtain ⟨i, n⟩ := p
+    simp only
+    split
+    · exact keeps_write_fresh hk i (hs i n rfl) _
+    · exact hk.trans (keeps_alloc h _)
+
+theorem appendH_addr {m : Nat} (h : Heap) (s : Option (Nat × Nat)) (xs : List String)
+    (hs : ∀ i n, s = some (i, n) → m ≤ i) (hm : m ≤ h.length) :
+    ∀ i n, (appendH h s xs).2 = some (i, n) → m ≤ i := by
+  unfold appendH
+  cases s with
+  | none =>
+    simp only
+    split
+    · intro i n e; cases e
+    · intro i n e; injection e with e; injection e with e1 _; omega
+  | some p =>
+    obtain ⟨i0, n0⟩ := p
+    simp only
+    split
+    · intro i n e; injection e with e; injection e with e1 _; rw [← e1]; exact hs i0 n0 rfl
+    · intro i n e; injection e with e; injection e with e1 _; omega
+
 theorem mergeFieldH_keeps (h : Heap) (r : Rule) (a b : RVal) (hr : writesInput r = false) :
     Keeps h (mergeFieldH h r a b).1 := by
   unfold mergeFieldH
@@ -333,7 +366,14 @@ theorem mergeFieldH_keeps (h : Heap) (r : Rule) (a b : RVal) (hr : writesInput r
     · exact keeps_write_fresh (keeps_write_fresh (keeps_alloc h _) _ (Nat.le_refl _) _) _ (Nat.le_refl _) _
   · simp [writesInput] at hr
   · simp [writesInput] at hr
-  · exact keeps_write_fresh (keeps_write_fresh (keeps_alloc h _) _ (Nat.le_refl _) _) _ (Nat.le_refl _) _
+  · -- concat: make, append, append — all on a fresh backing array
+    rename_i sa sb
+    have k0 : Keeps h (makeH h ((readSlice h sa).length + (readSlice h sb).length)).1 := keeps_alloc h _
+    have a0 : ∀ i n, (makeH h ((readSlice h sa).length + (readSlice h sb).length)).2 = some (i, n) → h.length ≤ i := by
+      intro i n e; simp only [makeH] at e; injection e with e; injection e with e1 _; omega
+    have k1 := appendH_keeps k0 _ (readSlice (makeH h ((readSlice h sa).length + (readSlice h sb).length)).1 sa) a0
+    have a1 := appendH_addr (m := h.length) _ _ (readSlice (makeH h ((readSlice h sa).length + (readSlice h sb).length)).1 sa) a0 k0.1
+    exact appendH_keeps k1 _ _ a1
   · exact Keeps.refl h
   · exact Keeps.refl h
   · exact Keeps.refl h
@@ -350,16 +390,18 @@ theorem mergeHLoop_keeps (t : List FieldSpec) (ht : ∀ fs ∈ t, writesInput fs
 
 /-! ### heap view and value view agree -/
 
-/-- a reference-level field value of the right shape for its kind, pointing into `h` -/
+/-- a reference-level field value of the right shape for its kind, pointing into `h`: a map
+reference is nil or the address of a map object; a slice header is nil or (address of a backing
+array, length ≤ its capacity); every other field is a scalar -/
 def RefOK (h : Heap) : Kind → RVal → Prop
   | .tags, .ref none => True
   | .tags, .ref (some i) => ∃ m, h[i]? = some (.tags m)
-  | .list, .ref none => True
-  | .list, .ref (some i) => ∃ l, h[i]? = some (.strs l)
-  | .tags, .scalar _ => False
-  | .list, .scalar _ => False
-  | _, .ref _ => False
+  | .list, .slice none => True
+  | .list, .slice (some (i, n)) => ∃ cells, h[i]? = some (.strs cells) ∧ n ≤ cells.length
+  | .tags, _ => False
+  | .list, _ => False
   | _, .scalar _ => True
+  | _, _ => False
 
 theorem lt_of_getElem?_some {h : Heap} {i : Nat} {o : Obj} (hm : h[i]? = some o) : i < h.length := by
   rcases Nat.lt_or_ge i h.length with h1 | h1
@@ -374,13 +416,14 @@ theorem readTags_keeps {h h' : Heap} (hk : Keeps h h') (r : Option Nat) (hr : Re
     obtain ⟨m, hm⟩ := hr
     simp only [readTags, hk.2 i (lt_of_getElem?_some hm)]
 
-theorem readStrs_keeps {h h' : Heap} (hk : Keeps h h') (r : Option Nat) (hr : RefOK h .list (.ref r)) :
-    readStrs h' r = readStrs h r := by
-  cases r with
+theorem readSlice_keeps {h h' : Heap} (hk : Keeps h h') (s : Option (Nat × Nat)) (hr : RefOK h .list (.slice s)) :
+    readSlice h' s = readSlice h s := by
+  cases s with
   | none => rfl
-  | some i =>
-    obtain ⟨m, hm⟩ := hr
-    simp only [readStrs, hk.2 i (lt_of_getElem?_some hm)]
+  | some p =>
+    obtain ⟨i, n⟩ := p
+    obtain ⟨m, hm, _⟩ := hr
+    simp only [readSlice, cellsOf, hk.2 i (lt_of_getElem?_some hm)]
 
 theorem RefOK_keeps {h h' : Heap} (hk : Keeps h h') (k : Kind) (v : RVal) (hr : RefOK h k v) : RefOK h' k v := by
   cases k <;> cases v with
@@ -392,6 +435,14 @@ theorem RefOK_keeps {h h' : Heap} (hk : Keeps h h') (k : Kind) (v : RVal) (hr : 
       first
       | (obtain ⟨m, hm⟩ := hr; exact ⟨m, by rw [hk.2 i (lt_of_getElem?_some hm)]; exact hm⟩)
       | exact hr
+  | slice s =>
+    cases s with
+    | none => first | exact hr | trivial
+    | some p =>
+      obtain ⟨i, n⟩ := p
+      first
+      | (obtain ⟨c, hm, hn⟩ := hr; exact ⟨c, by rw [hk.2 i (lt_of_getElem?_some hm)]; exact hm, hn⟩)
+      | exact hr
 
 theorem derefVal_keeps {h h' : Heap} (hk : Keeps h h') (k : Kind) (v : RVal) (hr : RefOK h k v) :
     derefVal h' k v = derefVal h k v := by
@@ -402,16 +453,17 @@ theorem derefVal_keeps {h h' : Heap} (hk : Keeps h h') (k : Kind) (v : RVal) (hr
     | (cases r with
        | none => rfl
        | some i => simp only [derefVal, readTags_keeps hk (some i) hr])
-    | simp only [derefVal, readStrs_keeps hk r hr]
     | rfl
+    | exact absurd hr (by simp [RefOK])
+  | slice s =>
+    first
+    | simp only [derefVal, readSlice_keeps hk s hr]
+    | rfl
+    | exact absurd hr (by simp [RefOK])
 
 theorem readTags_hwrite_self (g : Heap) (n : Nat) (hn : n < g.length) (m : Tags) :
     readTags (hwrite g n (.tags m)) (some n) = m := by
   simp [readTags, hwrite, hn]
-
-theorem readStrs_hwrite_self (g : Heap) (n : Nat) (hn : n < g.length) (l : List String) :
-    readStrs (hwrite g n (.strs l)) (some n) = l := by
-  simp [readStrs, hwrite, hn]
 
 theorem length_hwrite (g : Heap) (n : Nat) (o : Obj) : (hwrite g n o).length = g.length := by simp [hwrite]
 
@@ -457,33 +509,75 @@ theorem mergeFieldH_tagsFresh (h : Heap) (ra rb : Option Nat)
       simp only [hwrite]
       rw [List.getElem?_set_self (by simpa [hwrite] using hlen2)]
 
-theorem mergeFieldH_concat (h : Heap) (ra rb : Option Nat)
-    (ha : RefOK h .list (.ref ra)) (hb : RefOK h .list (.ref rb)) :
-    derefVal (mergeFieldH h .concat (.ref ra) (.ref rb)).1 .list (mergeFieldH h .concat (.ref ra) (.ref rb)).2
-      = mergeVal .concat (derefVal h .list (.ref ra)) (derefVal h .list (.ref rb)) ∧
-    RefOK (mergeFieldH h .concat (.ref ra) (.ref rb)).1 .list (mergeFieldH h .concat (.ref ra) (.ref rb)).2 := by
-  have hk1 : Keeps h (h ++ [Obj.strs []]) := keeps_alloc h _
-  have e0 : readStrs (h ++ [Obj.strs []]) (some h.length) = [] := by simp [readStrs]
-  have ea : readStrs (h ++ [Obj.strs []]) ra = readStrs h ra := readStrs_keeps hk1 ra ha
-  have hlen1 : h.length < (h ++ [Obj.strs []]).length := by simp
-  have hk2 := keeps_write_fresh hk1 h.length (Nat.le_refl _) (Obj.strs ([] ++ readStrs h ra))
-  have e1 := readStrs_hwrite_self (h ++ [Obj.strs []]) h.length hlen1 ([] ++ readStrs h ra)
-  have eb : readStrs (hwrite (h ++ [Obj.strs []]) h.length (Obj.strs ([] ++ readStrs h ra))) rb = readStrs h rb :=
-    readStrs_keeps hk2 rb hb
-  have hlen2 : h.length < (hwrite (h ++ [Obj.strs []]) h.length (Obj.strs ([] ++ readStrs h ra))).length := by
-    rw [length_hwrite]; exact hlen1
-  have e2 := readStrs_hwrite_self _ h.length hlen2 (([] ++ readStrs h ra) ++ readStrs h rb)
-  have hres : mergeFieldH h .concat (.ref ra) (.ref rb) =
-      (hwrite (hwrite (h ++ [Obj.strs []]) h.length (Obj.strs ([] ++ readStrs h ra))) h.length
-          (Obj.strs (([] ++ readStrs h ra) ++ readStrs h rb)), .ref (some h.length)) := by
-    simp only [mergeFieldH, e0, ea, e1, eb]
+theorem cellsOf_append_self (h : Heap) (l : List String) : cellsOf (h ++ [Obj.strs l]) h.length = l := by
+  simp [cellsOf]
+
+theorem cellsOf_hwrite_self (h : Heap) (i : Nat) (hi : i < h.length) (l : List String) :
+    cellsOf (hwrite h i (.strs l)) i = l := by
+  simp [cellsOf, hwrite, hi]
+
+/-- `append` denotes concatenation, whether it grows in place or reallocates, and returns a
+well-formed header -/
+theorem appendH_read (h : Heap) (s : Option (Nat × Nat)) (xs : List String) (hs : RefOK h .list (.slice s)) :
+    readSlice (appendH h s xs).1 (appendH h s xs).2 = readSlice h s ++ xs ∧
+    RefOK (appendH h s xs).1 .list (.slice (appendH h s xs).2) := by
+  unfold appendH
+  cases s with
+  | none =>
+    simp only
+    split
+    · rename_i he
+      have : xs = [] := by simpa using he
+      subst this
+      exact ⟨by simp [readSlice], trivial⟩
+    · refine ⟨?_, xs, by simp, Nat.le_refl _⟩
+      simp [readSlice, cellsOf_append_self]
+  | some p =>
+    obtain ⟨i, n⟩ := p
+    obtain ⟨cells, hc, hn⟩ := hs
+    have hi := lt_of_getElem?_some hc
+    have hcells : cellsOf h i = cells := by simp [cellsOf, hc]
+    simp only [hcells]
+    split
+    · rename_i hfit
+      refine ⟨?_, cells.take n ++ xs ++ cells.drop (n + xs.length), by simp [hwrite, hi], ?_⟩
+      · simp only [readSlice, cellsOf_hwrite_self h i hi, hcells]
+        have hl : (cells.take n ++ xs).length = n + xs.length := by simp [List.length_take, Nat.min_eq_left hn]
+        rw [List.take_left' hl]
+      · simp [List.length_take, Nat.min_eq_left hn] <;> omega
+    · refine ⟨?_, cells.take n ++ xs, by simp, by simp [List.length_take, Nat.min_eq_left hn]⟩
+      simp only [readSlice, cellsOf_append_self, hcells]
+      apply List.take_of_length_le
+      simp [List.length_take, Nat.min_eq_left hn]
+
+theorem mergeFieldH_concat (h : Heap) (sa sb : Option (Nat × Nat))
+    (ha : RefOK h .list (.slice sa)) (hb : RefOK h .list (.slice sb)) :
+    derefVal (mergeFieldH h .concat (.slice sa) (.slice sb)).1 .list (mergeFieldH h .concat (.slice sa) (.slice sb)).2
+      = mergeVal .concat (derefVal h .list (.slice sa)) (derefVal h .list (.slice sb)) ∧
+    RefOK (mergeFieldH h .concat (.slice sa) (.slice sb)).1 .list (mergeFieldH h .concat (.slice sa) (.slice sb)).2 := by
+  let c := (readSlice h sa).length + (readSlice h sb).length
+  have k0 : Keeps h (makeH h c).1 := keeps_alloc h _
+  have a0 : ∀ i n, (makeH h c).2 = some (i, n) → h.length ≤ i := by
+    intro i n e; simp only [makeH] at e; injection e with e; injection e with e1 _; omega
+  have w0 : RefOK (makeH h c).1 .list (.slice (makeH h c).2) := ⟨List.replicate c "", by simp [makeH], Nat.zero_le _⟩
+  have r0 : readSlice (makeH h c).1 (makeH h c).2 = [] := by simp [makeH, readSlice]
+  have ea : readSlice (makeH h c).1 sa = readSlice h sa := readSlice_keeps k0 sa ha
+  obtain ⟨r1, w1⟩ := appendH_read (makeH h c).1 (makeH h c).2 (readSlice (makeH h c).1 sa) w0
+  have k1 := appendH_keeps k0 (makeH h c).2 (readSlice (makeH h c).1 sa) a0
+  have eb : readSlice (appendH (makeH h c).1 (makeH h c).2 (readSlice (makeH h c).1 sa)).1 sb = readSlice h sb :=
+    readSlice_keeps k1 sb hb
+  obtain ⟨r2, w2⟩ := appendH_read _ _ (readSlice (appendH (makeH h c).1 (makeH h c).2 (readSlice (makeH h c).1 sa)).1 sb) w1
+  have hres : mergeFieldH h .concat (.slice sa) (.slice sb) =
+      ((appendH (appendH (makeH h c).1 (makeH h c).2 (readSlice (makeH h c).1 sa)).1
+          (appendH (makeH h c).1 (makeH h c).2 (readSlice (makeH h c).1 sa)).2
+          (readSlice (appendH (makeH h c).1 (makeH h c).2 (readSlice (makeH h c).1 sa)).1 sb)).1,
+       .slice (appendH (appendH (makeH h c).1 (makeH h c).2 (readSlice (makeH h c).1 sa)).1
+          (appendH (makeH h c).1 (makeH h c).2 (readSlice (makeH h c).1 sa)).2
+          (readSlice (appendH (makeH h c).1 (makeH h c).2 (readSlice (makeH h c).1 sa)).1 sb)).2) := rfl
   rw [hres]
-  constructor
-  · simp only [derefVal, mergeVal]
-    rw [e2]; simp
-  · refine ⟨([] ++ readStrs h ra) ++ readStrs h rb, ?_⟩
-    simp only [hwrite]
-    rw [List.getElem?_set_self (by simpa [hwrite] using hlen2)]
+  refine ⟨?_, w2⟩
+  simp only [derefVal, mergeVal]
+  rw [r2, eb, r1, r0, ea]; simp
 
 /-- One field: the heap view's result denotes the value view's result, and is a well-formed
 reference into the new heap. -/
@@ -507,9 +601,11 @@ theorem mergeFieldH_deref (h : Heap) (r : Rule) (k : Kind) (a b : RVal)
   | tags =>
     cases a with
     | scalar _ => simp [RefOK] at ha
+    | slice _ => simp [RefOK] at ha
     | ref ra =>
       cases b with
       | scalar _ => simp [RefOK] at hb
+      | slice _ => simp [RefOK] at hb
       | ref rb =>
         cases r <;> simp [compat] at hc
         · exact ⟨by simp [mergeFieldH, mergeVal], by simpa [mergeFieldH] using hb⟩
@@ -519,13 +615,15 @@ theorem mergeFieldH_deref (h : Heap) (r : Rule) (k : Kind) (a b : RVal)
   | list =>
     cases a with
     | scalar _ => simp [RefOK] at ha
-    | ref ra =>
+    | ref _ => simp [RefOK] at ha
+    | slice sa =>
       cases b with
       | scalar _ => simp [RefOK] at hb
-      | ref rb =>
+      | ref _ => simp [RefOK] at hb
+      | slice sb =>
         cases r <;> simp [compat] at hc
         · exact ⟨by simp [mergeFieldH, mergeVal], by simpa [mergeFieldH] using hb⟩
-        · exact mergeFieldH_concat h ra rb ha hb
+        · exact mergeFieldH_concat h sa sb ha hb
         · simp [writesInput] at hr
         · exact ⟨by simp [mergeFieldH, mergeVal], by simpa [mergeFieldH] using ha⟩
 
@@ -657,5 +755,159 @@ theorem deref_keeps (t : List FieldSpec) {h h' : Heap} (hk : Keeps h h') (c : RC
   apply List.map_congr_left
   intro fs hfs
   rw [derefVal_keeps hk _ _ (hc fs hfs)]
+
+/-! ### the shape interpreter at the canonical shape -/
+
+theorem readDirS_canonical (t : List FieldSpec) (es : List DirEnt) : ∀ acc,
+    readDirS canonicalRead t es acc = readDir t es acc := by
+  induction es with
+  | nil => intro acc; rfl
+  | cons e es ih =>
+    intro acc
+    have h1 : canonicalRead.skipSubdirs = true := rfl
+    have h2 : canonicalRead.suffix = ".json" := rfl
+    have h3 : canonicalRead.dirMerge = .resultFirst := rfl
+    simp only [readDirS, readDir, h1, h2, h3, Bool.true_and, mergeBy, isJson, ih]
+    by_cases hd : e.isDir = true
+    · simp [hd]
+    · by_cases hj : hasSuffix ".json" e.name = true
+      · cases hc : e.cfg <;> simp [hd, hj, ih]
+      · simp [hd, hj]
+
+theorem readLoopS_canonical (t : List FieldSpec) (ps : List PathArg) : ∀ acc,
+    readLoopS canonicalRead t ps acc = readLoop t ps acc := by
+  induction ps with
+  | nil => intro acc; rfl
+  | cons p ps ih =>
+    intro acc
+    cases p with
+    | unreadable => rfl
+    | file c =>
+      cases c with
+      | none => rfl
+      | some c =>
+        have h : canonicalRead.fileMerge = .resultFirst := rfl
+        simp only [readLoopS, readLoop, h, mergeBy, ih]
+    | dir ents =>
+      simp only [readLoopS, readLoop]
+      have : canonicalRead.dirMode = .running := rfl
+      simp only [this, readDirS_canonical]
+      have hs : orderEnts canonicalRead.sort ents = sortEnts ents := rfl
+      rw [hs]
+      cases readDir t (sortEnts ents) acc <;> simp [ih]
+
+theorem readPathsS_canonical (t : List FieldSpec) (ps : List PathArg) :
+    readPathsS canonicalRead t ps = readPaths t ps := readLoopS_canonical t ps (zero t)
+
+/-! ### DecodeConfig's post-processing -/
+
+theorem alookup_setField (c : Config) (d : String) (v : FieldVal) (f : String) :
+    alookup (setField c d v) f = if f = d then (alookup c d).map (fun _ => v) else alookup c f := by
+  induction c with
+  | nil => simp [setField]
+  | cons p c ih =>
+    have hs : setField (p :: c) d v = (if p.1 == d then (d, v) else p) :: setField c d v := by
+      simp [setField]
+    rw [hs, alookup_cons, alookup_cons, ih]
+    by_cases hpd : p.1 = d
+    · by_cases hfd : f = d
+      · subst hfd; subst hpd; simp [alookup_cons]
+      · have : ¬ (d = f) := fun e => hfd e.symm
+        have h2 : ¬ (p.1 = f) := by rw [hpd]; exact this
+        simp [hpd, hfd, this, h2, alookup_cons]
+    · by_cases hfd : f = d
+      · subst hfd
+        have : ¬ (p.1 = f) := hpd
+        simp [hpd, alookup_cons]
+      · simp [hpd, hfd, alookup_cons]
+
+theorem get_setField_ne (c : Config) (d : String) (v : FieldVal) (f : String) (h : f ≠ d) :
+    get (setField c d v) f = get c f := by
+  show (alookup (setField c d v) f).getD _ = (alookup c f).getD _
+  rw [alookup_setField]; simp [h]
+
+theorem get_setField_self (c : Config) (d : String) (v : FieldVal) (h : (alookup c d).isSome = true) :
+    get (setField c d v) d = v := by
+  show (alookup (setField c d v) d).getD _ = v
+  rw [alookup_setField]
+  cases hh : alookup c d with
+  | none => simp [hh] at h
+  | some x => simp
+
+theorem isSome_alookup_setField (c : Config) (d : String) (v : FieldVal) (f : String) :
+    (alookup (setField c d v) f).isSome = (alookup c f).isSome := by
+  rw [alookup_setField]
+  by_cases h : f = d
+  · subst h; cases alookup c f <;> simp
+  · simp [h]
+
+/-- What `decodePost` does, for every configuration whose raw fields are strings and whose
+duration fields exist: it fails exactly when some non-empty raw string does not parse; otherwise
+every duration whose raw string is non-empty becomes the parsed value, every other field —
+including the durations whose raw string is empty — is unchanged. -/
+theorem decodePost_spec (parseDur : String → Option Int) (pairs : List (String × String)) : ∀ (c : Config),
+    (∀ pr ∈ pairs, ∀ pr' ∈ pairs, pr.1 ≠ pr'.2) → (pairs.map (·.2)).Nodup →
+    (∀ pr ∈ pairs, (alookup c pr.2).isSome = true) → (∀ pr ∈ pairs, ∃ s, get c pr.1 = .str s) →
+    match decodePost parseDur pairs c with
+    | none => ∃ pr ∈ pairs, ∃ s, get c pr.1 = .str s ∧ s ≠ "" ∧ parseDur s = none
+    | some c' => (∀ f, f ∉ pairs.map (·.2) → get c' f = get c f) ∧
+        ∀ pr ∈ pairs, ∃ s, get c pr.1 = .str s ∧
+          (s = "" → get c' pr.2 = get c pr.2) ∧ (s ≠ "" → ∃ n, parseDur s = some n ∧ get c' pr.2 = .int n) := by
+  induction pairs with
+  | nil => intro c _ _ _ _; simp [decodePost]
+  | cons pr rest ih =>
+    intro c hdisj hnd hpres hraw
+    obtain ⟨s, hs⟩ := hraw pr (by simp)
+    simp only [List.map_cons, List.nodup_cons] at hnd
+    have hdisj' : ∀ p ∈ rest, ∀ p' ∈ rest, p.1 ≠ p'.2 := fun p hp p' hp' => hdisj p (by simp [hp]) p' (by simp [hp'])
+    simp only [decodePost, decodeStep, hs]
+    by_cases hse : s = ""
+    · -- nothing to do for this pair
+      simp only [hse, ne_eq, not_true_eq_false, if_false]
+      have := ih c hdisj' hnd.2 (fun p hp => hpres p (by simp [hp])) (fun p hp => hraw p (by simp [hp]))
+      cases hd : decodePost parseDur rest c with
+      | none =>
+        rw [hd] at this
+        obtain ⟨p, hp, x⟩ := this
+        exact ⟨p, by simp [hp], x⟩
+      | some c' =>
+        rw [hd] at this
+        obtain ⟨h1, h2⟩ := this
+        refine ⟨fun f hf => h1 f (fun hm => hf (by simp [hm])), ?_⟩
+        intro p hp
+        rcases List.mem_cons.mp hp with rfl | hp
+        · exact ⟨s, hs, fun _ => h1 _ hnd.1, fun hne => absurd hse hne⟩
+        · exact h2 p hp
+    · simp only [ne_eq, hse, not_false_eq_true, if_true]
+      cases hp : parseDur s with
+      | none => exact ⟨pr, by simp, s, hs, hse, hp⟩
+      | some n =>
+        simp only [Option.map_some]
+        have hraw1 : ∀ p ∈ rest, get (setField c pr.2 (.int n)) p.1 = get c p.1 := fun p hp' =>
+          get_setField_ne c pr.2 _ p.1 (hdisj p (by simp [hp']) pr (by simp))
+        have := ih (setField c pr.2 (.int n)) hdisj' hnd.2
+          (fun p hp' => by rw [isSome_alookup_setField]; exact hpres p (by simp [hp']))
+          (fun p hp' => by rw [hraw1 p hp']; exact hraw p (by simp [hp']))
+        cases hd : decodePost parseDur rest (setField c pr.2 (.int n)) with
+        | none =>
+          rw [hd] at this
+          obtain ⟨p, hp', s', h1, h2, h3⟩ := this
+          exact ⟨p, by simp [hp'], s', by rw [← hraw1 p hp']; exact h1, h2, h3⟩
+        | some c' =>
+          rw [hd] at this
+          obtain ⟨h1, h2⟩ := this
+          refine ⟨?_, ?_⟩
+          · intro f hf
+            have hf1 : f ≠ pr.2 := fun e => hf (by simp [e])
+            rw [h1 f (fun hm => hf (by simp [hm])), get_setField_ne c pr.2 _ f hf1]
+          · intro p hp'
+            rcases List.mem_cons.mp hp' with rfl | hp'
+            · refine ⟨s, hs, fun e => absurd e hse, fun _ => ⟨n, hp, ?_⟩⟩
+              rw [h1 _ hnd.1, get_setField_self c _ _ (hpres _ (by simp))]
+            · obtain ⟨s', hs', ha, hb⟩ := h2 p hp'
+              have hne : p.2 ≠ pr.2 := fun e => hnd.1 (e ▸ List.mem_map_of_mem (f := (·.2)) hp')
+              refine ⟨s', by rw [← hraw1 p hp']; exact hs', fun e => ?_, hb⟩
+              rw [ha e, get_setField_ne c pr.2 _ p.2 hne]
+
 
 end SerfProofs.Config
